@@ -310,8 +310,17 @@ def main():
 
     # outcome
     if new_fail:
-        cfg, fail = mod.shrink(new_fail[0][0], new_fail[0][1]) if hasattr(mod, 'shrink') else new_fail[0]
-        p = write_replay(prop, 'input', dict(config=cfg, failure=fail, seed=seed, tier=tier,
+        cfg0, fail0 = new_fail[0]
+        cfg, fail, shrink_steps = cfg0, fail0, 0
+        try:
+            if hasattr(mod, 'shrink'):
+                cfg, fail = mod.shrink(cfg0, fail0)
+            elif os.environ.get('VERIF_NO_SHRINK') != '1':
+                from props.common import generic_shrink
+                cfg, fail, shrink_steps = generic_shrink(mod, cfg0, fail0, lambda c, f: bool(mod.kf_match(c, f, kf)))
+        except Exception:
+            cfg, fail = cfg0, fail0
+        p = write_replay(prop, 'input', dict(config=cfg, failure=fail, seed=seed, tier=tier, original_config=cfg0, shrink_steps=shrink_steps,
                                              broken_obligations=[b[0] for b in broken]))
         violations.append((p, 'failing input: %s' % json.dumps(cfg, default=str)[:300], False))
     elif broken:
